@@ -292,33 +292,6 @@ func jsonUnquote(text string) (string, bool) {
 	return s, true
 }
 
-// the guard of normalizeToIntString fires on a value that is representable (finding 19)
-func guardFires(content string) bool {
-	v, ok := parseRFCNumber(content)
-	if !ok || v.mant.Sign() == 0 {
-		return false
-	}
-	// recompute intpSize and exp as the code sees them
-	s := strings.TrimPrefix(content, "-")
-	ip := s
-	if i := strings.IndexAny(s, ".eE"); i >= 0 {
-		ip = s[:i]
-	}
-	intpSize := len(ip)
-	if ip == "0" {
-		intpSize = 0
-	}
-	e := 0
-	if i := strings.IndexAny(s, "eE"); i >= 0 {
-		x, err := strconv.ParseInt(s[i+1:], 10, 32)
-		if err != nil {
-			return false
-		}
-		e = int(x)
-	}
-	return e >= 0 && intpSize+e > 20 && strings.Contains(s, ".")
-}
-
 func checkIntField(c *C, k intKind, text string, quoted bool) {
 	field := k.fields[c.Rand.Intn(len(k.fields))]
 	input := in("literal", []byte(text), k.name+":"+field)
@@ -331,7 +304,7 @@ func checkIntField(c *C, k intKind, text string, quoted bool) {
 		}
 	}
 	want := expectInt(k, content)
-	got, doc := implField(field, text)
+	got, _ := implField(field, text)
 	if c.HasModel() {
 		verb := "fieldint"
 		if !k.signed {
@@ -343,18 +316,7 @@ func checkIntField(c *C, k intKind, text string, quoted bool) {
 		c.Check(implToken(k, text) == got, "Token.Int/Uint disagrees with the field result", input, "")
 	}
 	if got != want {
-		sig := ""
-		switch {
-		case got != "none" && !ejson.Valid(doc) && !quoted && danglingExp.MatchString(text):
-			sig = sigExp
-		case got == "none" && want != "none" && guardFires(content):
-			sig = sigLeadZero
-		}
-		what := fmt.Sprintf("%s field: implementation %s, exact value says %s", k.name, got, want)
-		if sig != "" {
-			what = k.name + " field differs from the exact value"
-		}
-		fail(c, what, input, sig)
+		c.Check(false, fmt.Sprintf("%s field: implementation %s, exact value says %s", k.name, got, want), input, "")
 	}
 	c.Hist("int:" + k.name + ":" + map[bool]string{true: "accept", false: "reject"}[got != "none"])
 	c.Case(field+"="+text, got != "none")
@@ -390,7 +352,7 @@ func checkFloatField(c *C, bits int, text string, quoted bool) {
 			}
 		}
 	}
-	got, doc := implField(field, text)
+	got, _ := implField(field, text)
 	if strings.HasPrefix(got, "f") || strings.HasPrefix(got, "d") {
 		var f float64
 		if bits == 32 {
@@ -412,11 +374,7 @@ func checkFloatField(c *C, bits int, text string, quoted bool) {
 		}
 	}
 	if got != want {
-		sig := ""
-		if got != "none" && !ejson.Valid(doc) && danglingExp.MatchString(text) {
-			sig = sigExp
-		}
-		fail(c, fmt.Sprintf("float%d field: implementation %s, correctly rounded value %s", bits, got, want), input, sig)
+		c.Check(false, fmt.Sprintf("float%d field: implementation %s, correctly rounded value %s", bits, got, want), input, "")
 	}
 	c.Hist(fmt.Sprintf("float%d:%s", bits, map[bool]string{true: "accept", false: "reject"}[got != "none"]))
 	c.Case(field+"="+text, got != "none")
@@ -470,16 +428,10 @@ func checkLiteralAllKinds(c *C, lit string) {
 	}
 	// enum by number goes through Token.Int(32)
 	{
-		got, doc := implField("optionalNestedEnum", lit)
+		got, _ := implField("optionalNestedEnum", lit)
 		want := expectInt(intKinds[0], lit)
 		if got != want {
-			sig := ""
-			if got != "none" && !ejson.Valid(doc) && danglingExp.MatchString(lit) {
-				sig = sigExp
-			} else if got == "none" && guardFires(lit) {
-				sig = sigLeadZero
-			}
-			fail(c, "enum field by number differs from the exact value", in("literal", []byte(lit), "enum"), sig)
+			c.Check(false, fmt.Sprintf("enum field by number: implementation %s, exact value says %s", got, want), in("literal", []byte(lit), "enum"), "")
 		}
 	}
 }
